@@ -1,9 +1,12 @@
 #!/bin/bash
+# A spec a,b,c reverts several commits (newest first) where later fixes touched the same lines; a *.diff is a hand-made partial reversal.
 # For every fix: commit in /repo, revert it in a scratch copy and run the check(s) that should notice. Output: one line per (commit, check).
 cd /verif
 while read sha checks; do
   for c in $checks; do
-    out=$(tools/try_mutant.sh revert:$sha $c 2>&1)
+    case "$sha" in *.diff) spec=/verif/seeded/reversal_patches/$sha ;; *) spec=revert:$sha ;; esac
+    if [ -n "${ONLY:-}" ] && ! echo "$sha" | grep -q "$ONLY"; then continue; fi
+    out=$(tools/try_mutant.sh $spec $c 2>&1)
     base=$(echo "$out" | grep "baseline on mutant" | sed 's/.*mutant: //')
     code=$(echo "$out" | grep "^== $c exit" | sed 's/.*exit=//')
     wit=$(echo "$out" | grep -v "^==\|^\[\|^VIOL\|^KNOWN" | head -1 | cut -c1-200)
@@ -22,16 +25,16 @@ abc1dfd C04
 5dfd1c0 C04
 e043d9f C05 C15
 aaf2eab C05 C06
-cddd33e C08
+d4b85b4,cddd33e C08
 9a3a12c C10
 0bf6f13 C13
 978698b C16
 1fb4498 C17 C18
 7ed1881 C17
 14f6499 C15
-a58d796 C04
+15167b8,7b756ce,96075f2,a58d796 C04
 327ffe0 C09
-0d94701 C08
+0d94701_partial.diff C08
 8418eeb C05
 6a61739 C05
 d98a809 C05
@@ -40,9 +43,9 @@ cef896e C17
 e551e73 C17
 67cf103 C17
 bbda586 C17
-954495f C06
-96075f2 C05
-67bdc16 C08
+15167b8,7b756ce,96075f2,954495f C06
+15167b8,7b756ce,96075f2 C05
+d4b85b4,4f9f7e8,67bdc16 C08
 3033459 C11
 4f9f7e8 C04
 c156be2 C16
